@@ -327,6 +327,11 @@ def _may_rebind(stmts: list, value: ast.AST) -> bool:
                 # setattr(root..., "attr", v)
                 if isinstance(node.func, ast.Name) and node.func.id in ("setattr", "delattr"):
                     return True
+                # a method called on the root or on a prefix of the chain (root.reset(), root.a.clear()) may rebind the rest
+                if isinstance(node.func, ast.Attribute):
+                    c2 = _chain(node.func.value)
+                    if c2 and c2[0] == root and len(c2[1]) < len(parts) and c2[1] == parts[:len(c2[1])]:
+                        return True
     return False
 
 
